@@ -57,13 +57,23 @@ def run(ctx):
         raise ToolError("sensitivity: the model with a per-thread cache of library files was not rejected")
     ctx.stage("model-sensitivity", variant="SharedFiles (library files cached per thread by library name)", tlc_verdict="%s violated (as required)" % r.violation)
     library_dirs(ctx)
-    cfg = "MCInterp_quick.cfg" if tier == "quick" else "MCInterp_thorough.cfg"
     vecs = []
-    for c in (cfg, "MCInterp_files.cfg" if tier == "quick" else "MCInterp_files_thorough.cfg"):
+    for c in ("MCInterp_quick.cfg", "MCInterp_files.cfg" if tier == "quick" else "MCInterp_files_thorough.cfg"):
         r = run_tlc("MCInterp.tla", c, ctx.dir, workers=12, timeout=3000, xmx="12g")
         require_clean(r, c)
         ctx.add_tlc(r, c + " (non-interference on every interleaving)")
         vecs += r.vecs
+    if tier != "quick":
+        # programs of three forms: about four million interleavings - sampled by random walks of the model
+        seen = {canon(v) for v in vecs}
+        for k in range(4):
+            r = run_tlc("MCInterp.tla", "MCInterp_thorough.cfg", ctx.dir, tag="MCInterp_thorough_sim%d" % k, workers=1, timeout=3000, xmx="12g",
+                        simulate="num=8000", depth=8, seed=ctx.seed * 10 + k)
+            require_clean(r, "MCInterp_thorough simulate")
+            ctx.add_tlc(r, "MCInterp_thorough.cfg (random walks)")
+            for v in r.vecs:
+                if canon(v) not in seen:
+                    seen.add(canon(v)); vecs.append(v)
     vecs = sorted(vecs, key=canon)
     jobs, poss = [], []
     for i, v in enumerate(vecs):
